@@ -1,5 +1,6 @@
 //@include prelude/head.rs
-broadcast use {ax::axiom_string_eq_spec, ax::axiom_string_obeys_eq, ax::axiom_string_to_string};
+//@include prelude/hash.rs
+broadcast use {vstd::std_specs::hash::group_hash_axioms, axh::axiom_uuid_key_model, ax::axiom_string_eq_spec, ax::axiom_string_obeys_eq, ax::axiom_string_to_string};
 //@props C08 C11
 //@include regions/errors.rs
 //@include regions/server_plain_types.rs
